@@ -130,6 +130,26 @@ def focused_cases(changes, rng, limit=500000):
                     for a in pool:
                         for b in pool:
                             out.append(case(ev, None, f % (a, b)))
+                    if not thin:
+                        # volume: a random first operand (integers of every bit length / decimals with 1-4 fractional digits) against
+                        # small second operands and the reverse: last-bit differences for a small fraction of operands
+                        seconds = ['2', '2', '2', '2', '3', '0.5', '10', '(-1)', '7', '(-2)', '1.5', '64', '0.1'] if ev not in ('i64',) else ['2', '2', '2', '3', '10', '(-1)', '7', '(-2)', '63', '5']
+                        for _ in range(60000 // max(1, len(forms))):
+                            if ev in ('i64', 'number') and rng.chance(2, 3):
+                                v = rng.below(1 << (1 + rng.below(63))) + 1
+                                a = str(v) if rng.chance(1, 2) else '(-%d)' % v
+                            elif ev == 'i64':
+                                a = str(rng.below(100000))
+                            else:
+                                d = 1 + rng.below(4)
+                                mag = rng.below(2000 * 10 ** d) + 1
+                                a = '%d.%s' % (mag // 10 ** d, str(mag % 10 ** d).rjust(d, '0'))
+                                if rng.chance(1, 3):
+                                    a = '(-' + a + ')'
+                            b = rng.choice(seconds)
+                            out.append(case(ev, None, f % (a, b)))
+                            if rng.chance(1, 3):
+                                out.append(case(ev, None, f % (b, a)))
                     for p in phs:
                         for b in sp:
                             out.append(case(ev, p, f % ('@', b)))
@@ -159,6 +179,20 @@ def focused_cases(changes, rng, limit=500000):
                     for a in pool + ([] if thin else tenths):
                         out.append(case(ev, None, f % wrap(a) if not f[0].isalpha() else f % a))
                         out.append(case(ev, None, f % ('(-' + a + ')')))
+                    if not thin and ev in ('i64', 'number'):
+                        # integers of every bit length, and the neighbours of perfect squares / cubes (k^2 +- d, k^3 +- d)
+                        for bl in range(2, 63):
+                            for _ in range(6):
+                                v = (1 << bl) + rng.below(1 << bl)
+                                out.append(case(ev, None, f % (wrap(str(v)) if not f[0].isalpha() else str(v))))
+                        for bl in range(2, 32):
+                            for _ in range(8):
+                                k = (1 << bl) + rng.below(1 << bl)
+                                for pw, dd in ((2, (-3, -2, -1, 0, 1, 2)), (3, (-1, 0, 1))):
+                                    for d in dd:
+                                        v = k ** pw + d
+                                        if 0 < v < 2 ** 63:
+                                            out.append(case(ev, None, f % (wrap(str(v)) if not f[0].isalpha() else str(v))))
                     if not thin and ev != 'i64':
                         # volume: random decimal arguments (1-4 fractional digits, magnitudes 1e-3 .. 200): value-dependent slips
                         # that flip a last bit for a small fraction of operands
